@@ -1468,15 +1468,18 @@ func (a Shards) IteratorCost(measurement string, opt query.IteratorOptions) (que
 	limit := limiter.NewFixed(runtime.GOMAXPROCS(0))
 	var wg sync.WaitGroup
 	for _, sh := range a {
-		limit.Take()
-		wg.Add(1)
-
+		// Check for an earlier failure before taking a token and a WaitGroup
+		// count: breaking out afterwards would leave both unreleased and
+		// wg.Wait below would block forever.
 		mu.RLock()
 		if costerr != nil {
 			mu.RUnlock()
 			break
 		}
 		mu.RUnlock()
+
+		limit.Take()
+		wg.Add(1)
 
 		go func(sh *Shard) {
 			defer limit.Release()
